@@ -172,3 +172,73 @@ func undoLocalRenames(modPkgs []*packages.Package, fset *token.FileSet, readSrc 
 	}
 	return overlay, notes
 }
+
+// bindingShape: for every function declaration of the given files, which declaring identifier each identifier resolves to
+// (by ordinal within the function; -1 for anything declared outside it). Two versions of a file that differ only by a
+// capture-free renaming of locals have the same shape; a renaming that makes a use resolve to another variable does not.
+func bindingShape(modPkgs []*packages.Package, fset *token.FileSet, files map[string]bool) map[string][]int {
+	out := map[string][]int{}
+	for _, p := range modPkgs {
+		if p.TypesInfo == nil {
+			continue
+		}
+		for _, f := range p.Syntax {
+			tf := fset.File(f.Pos())
+			if tf == nil || !files[tf.Name()] {
+				continue
+			}
+			for di, d := range f.Decls {
+				fd, ok := d.(*ast.FuncDecl)
+				if !ok || fd.Body == nil {
+					continue
+				}
+				var ids []*ast.Ident
+				ast.Inspect(fd, func(n ast.Node) bool {
+					if id, ok := n.(*ast.Ident); ok {
+						ids = append(ids, id)
+					}
+					return true
+				})
+				declAt := map[types.Object]int{}
+				for i, id := range ids {
+					if o := p.TypesInfo.Defs[id]; o != nil {
+						declAt[o] = i
+					}
+				}
+				shape := make([]int, len(ids))
+				for i, id := range ids {
+					shape[i] = -1
+					o := p.TypesInfo.Defs[id]
+					if o == nil {
+						o = p.TypesInfo.Uses[id]
+					}
+					if o != nil {
+						if k, ok := declAt[o]; ok {
+							shape[i] = k
+						}
+					}
+				}
+				out[fmt.Sprintf("%s#%d", tf.Name(), di)] = shape
+			}
+		}
+	}
+	return out
+}
+
+func sameShapes(a, b map[string][]int) bool {
+	if len(a) != len(b) {
+		return false
+	}
+	for k, x := range a {
+		y, ok := b[k]
+		if !ok || len(x) != len(y) {
+			return false
+		}
+		for i := range x {
+			if x[i] != y[i] {
+				return false
+			}
+		}
+	}
+	return true
+}
